@@ -1,8 +1,8 @@
 SPECIFICATION Spec
 CONSTANTS V = 3
-          FixedFold = FALSE
+          FixedFold = TRUE
           FixedSubsume = FALSE
           MaxAdds = 2
           Modes = {"None", "Equiv", "Subsume"}
-INVARIANTS TypeOK P1 P2 P3 P5
+INVARIANTS TypeOK P1 P2 P3 P4 P5
 CHECK_DEADLOCK FALSE
